@@ -247,6 +247,26 @@ def judge_c15(d):
     return None
 
 
+def judge_c05(d):
+    q, impl, model = d["query"], d["impl"], d["model"]
+    t = q.split()
+    if t[1] == "select":
+        im, mo = impl.split(), model.split()
+        if (impl == "refused") != (model == "refused"):
+            return "connection %s, but the designated entry / common protocol rule gives %s" % (impl, model)
+        if impl != "refused" and im != mo:
+            what = []
+            if im[0] != mo[0]: what.append("protocol %s instead of %s" % (im[0], mo[0]))
+            if im[1] != mo[1]: what.append("channel %s instead of %s" % (im[1], mo[1]))
+            if im[2] != mo[2]: what.append("certificate of %s instead of %s" % (im[2], mo[2]))
+            if im[3] != mo[3]: what.append("SNI credentials %s instead of %s" % (im[3], mo[3]))
+            return "; ".join(what) or "meta differs"
+        return None
+    if t[1] == "run":
+        return "a selection in a reload history was not answered from the configuration installed by the last successful reload: got %s expected %s" % (impl[:200], model[:200])
+    return None
+
+
 PROPS = {
     "C03": dict(
         suites=["c03"],
@@ -340,5 +360,22 @@ PROPS = {
                     "reply_truncation_is_error, udp_unwrap_wrap, udp_unwrap_no_panic about TT/Model/Socks5.lean",
         trusted=["base64 decoding (the decoded credential bytes are a model input)", "kernel connect() of the association socket"],
         assumptions=["reads are exact-size pulls, so segmentation of the server's bytes cannot matter: exercised, not proved beyond the pull structure"],
+    ),
+    "C05": dict(
+        suites=["c05"],
+        judge=judge_c05,
+        level="proof",
+        rule="150 (thorough 1500) host configurations over names with dot-suffix overlaps and alternative SNIs of the form <l>.<main>, "
+             "plain, and colliding; every non-empty subset of listen protocols; reverse proxy on/off; SNIs = every configured name, "
+             "user.<name>, <name>., .<name>, upper case, alternative SNIs, unknown; ALPN lists: empty, each of {h3,h2,http/1.1,spdy/3, "
+             "non-UTF-8, H2}, random pairs/triples - through the real TlsDemux::new (real PEM files, one per host entry so that the "
+             "certificate path identifies the entry) and select; reload histories (valid, duplicate names, empty main, unloadable "
+             "certificate) on a live Core; 4 threads selecting during alternating reloads",
+        explanation="theorems select_designated_host, no_entry_refused, exact_name_own_class, protocol_is_best_common, "
+                    "common_protocol_accepted, default_only_when_no_alpn, unknown_alpn_ignored, tcp_never_h3, reload_* about TT/Model/Demux.lean",
+        trusted=["rustls / BoringSSL present the certificate chain whose path select returned (not modelled)",
+                 "std RwLock gives each select one consistent TlsDemux (exercised by the concurrent suite, not proved)",
+                 "QUIC SNI callback uses the same select (read, not driven)"],
+        assumptions=["an alternative SNI listed for two main hosts is resolved by HashMap iteration order: generator keeps them unique"],
     ),
 }
